@@ -114,9 +114,46 @@ def h_exact(L, T, which, pre, n, post):
     return 'accepted'
 
 
+def h_other(L, T, parts):
+    """escapes outside the namespace / subpath cannot create segments there: with no raw '/' between type and name and no raw '#',
+    no namespace and no subpath may be reported, whatever is escaped in the name, version or qualifiers"""
+    I = L.I
+    s, holes = template_bytes(L, parts)
+    for hb in holes.values():
+        for x in hb:
+            L.assume(z3.Not(z3.Or([x == c for c in b'/#'])))
+    L.assume_utf8(s)
+    req = {'op': 'parse', 'T': KINDS[T][1], 's': SymStr(s)}
+    L.expect_native(req, {})
+    try:
+        r = from_str(I, T, s)
+    except Panic as e:
+        L.fail('panic: %s' % e.msg)
+        return 'panic'
+    if r.variant == 'Err':
+        L.expect_native(req, {'err': err_name(r.fields[0])})
+        return 'rejected:' + err_name(r.fields[0])
+    acc = accessors(I, T, r.fields[0])
+    L.expect_native(req, {'ok': obs_expect(acc)})
+    if acc['ns'] is not None:
+        L.fail('a namespace is reported although the input has no raw "/" between type and name')
+    if acc['sub'] is not None:
+        L.fail('a subpath is reported although the input has no raw "#"')
+    return 'accepted'
+
+
 def queries(tier):
     th = tier == 'thorough'
     qs = parse_family(tier, [chk_structure], depth=0)
+    # escapes in the name / version / qualifier value of every type, with and without an escaped '@' in front
+    for T, tys in (('String', ['t']), ('Purl', ['cargo', 'gem', 'golang', 'npm', 'nuget', 'pypi'])):
+        for ty in tys:
+            for parts in (['pkg:%s/' % ty, ('hole', 'h', 3), 'a', ('hole', 'g', 3), 'b'], ['pkg:%s/%%40a' % ty, ('hole', 'h', 3), 'b@1'],
+                          ['pkg:%s/n@' % ty, ('hole', 'h', 3), 'a', ('hole', 'g', 3)], ['pkg:%s/a%%2Fb?k=' % ty, ('hole', 'h', 3)]):
+                if ty not in ('t', 'npm', 'golang') and parts[0].endswith('/') and not th:
+                    continue
+                qs.append(Query('%s other %s' % (T, show_template(parts)), h_other, {'T': T, 'parts': parts},
+                                bound='input %s, holes without raw / and #' % show_template(parts)))
     for T in ('String', 'Purl'):
         ty = 't' if T == 'String' else 'golang'
         for n in lens((6 if th else 5) if T == 'String' else 4, 1):
@@ -158,6 +195,13 @@ def confirm(v, resp):
         want = b'/'.join(dec(x) for x in raw.split(b'/') if x not in (b'', b'.', b'..'))
         if (sub or b'') != want:
             return 'subpath reported as %r but the raw pieces decode to %r' % (sub, want)
+    if '#' not in s and sub is not None:
+        return 'subpath %r reported although the input has no raw "#"' % sub
+    body0 = s.split('#')[0].split('?')[0][4:].lstrip('/')
+    rest0 = body0.split('/', 1)[1] if '/' in body0 else ''
+    rest0 = rest0.rsplit('@', 1)[0] if '@' in rest0 else rest0
+    if '/' not in rest0.strip('/') and ns is not None and '/' not in rest0:
+        return 'namespace %r reported although the input has no raw "/" between type and name' % ns
     if 'ns' in lab or 'namespace' in lab:
         body = s.split('#')[0].split('?')[0]
         body = body[4:].lstrip('/')
